@@ -240,7 +240,8 @@ def run(ctx):
                     r3.missing("arm ExtendedProtocolData::%s" % v)
                     continue
                 puts = [c.block for c in bufputs if h.dominates(tgt, c.block)]
-                noneE, someE, _ = discr_edges(h, r"core::option::Option<alloc::string::String>", "None", switches_cache=[s_ for s_ in hsw if h.dominates(tgt, s_.block)])
+                # the entry's metadata: the client's name (before D54) or the statement itself
+                noneE, someE, _ = discr_edges(h, r"core::option::Option<(alloc::string::String|\(alloc::sync::Arc<pgcat::messages::Parse>, u64\))>", "None", switches_cache=[s_ for s_ in hsw if h.dominates(tgt, s_.block)])
                 contE, _, _ = discr_edges(h, r"ControlFlow<", "Continue", origin_pred=lambda o: o.kind == "call" and o.call.name == ENSURE, switches_cache=hsw)
                 ok = bool(puts) and bool(contE) and h.uncrossed_path([tgt], puts, edges=set(noneE) | set(contE)) is None
                 r3.check(ok, "arm:%s" % v, "%s with a cached statement name is appended only after ensure_prepared_statement_is_on_server() returned Ok" % v,
@@ -286,6 +287,11 @@ def run(ctx):
             src = {o.call.name for o in origins(c.body, c.args[1], taint=True) if o.kind == "call"} if m == "remove" and len(c.args) > 1 else set()
             r4.check("pgcat::messages::Parse::get_name" in src, "refused-batch-forgets-by-client-name", "the refused batch's names are removed by the name the client gave them (Parse::get_name of the buffered message)",
                      "forget_buffered_prepared_statements matches on the rewritten PGCAT_n name: an earlier, acknowledged statement of the client with the same text is forgotten together with the refused batch - its next Bind is answered with `does not exist` and the client is disconnected", c.where())
+        if m in ("get", "contains_key", "get_mut") and c.body.name.startswith(ENSURE):
+            # the batch is replayed at its Sync, after every message of it was read: a name that a later Close of the same batch took away is gone by then.
+            # What a buffered Bind / Describe needs (the statement to ensure) has to be captured when it is read, not looked up again by name (D54)
+            r4.fail("replay-needs-no-name-lookup", "ensure_prepared_statement_is_on_server looks the client's name up again when the batch is replayed: after `Parse s1, Bind s1, Execute, Close s1, Sync` "
+                    "(prepare, run, close in one round trip) the name is gone, the look-up fails and the client is disconnected without a reply", c.where())
         if m == "insert":
             src = {o.call.name for o in origins(c.body, c.args[1]) if o.kind == "call"}
             r4.check("pgcat::messages::Parse::get_name" in src, "insert-key", "the key is the client's own statement name (Parse::get_name of the message)", "the insert key does not come from the client's Parse message: %s" % sorted(src))
